@@ -1,5 +1,6 @@
 """C20 — filter mode emits exactly the selected packets with correct per-packet state."""
 import concurrent.futures as cf
+import json
 import os
 import struct
 import subprocess
@@ -12,9 +13,15 @@ RULE = ("end-to-end through the real binary (dev + release profiles): random pca
         "global header equals the input's, what the program prints (stdout under -s, stderr otherwise) incl. NP in the end filter; plus fixed programs with a filter that fails at run time "
         "on packet k (in an action and in a pattern; on the first packet; after action-less filters that already selected the packet), judged against the stream-loop model of "
         "Props/C20.lean computed by the generator: the packets written before the failure stay written (incl. the failing packet's own earlier selections), nothing later runs, "
-        "the end filter still runs once with NP = k; non-trivial = at least one packet selected or printed")
+        "the end filter still runs once with NP = k; fixed programs with a filter whose RESULT is not a boolean on some packets (pop_filter_frame error, a bare `break`): the "
+        "rest of that packet's filters are skipped, what was selected on it stays written, the stream goes on, `end` sees NP = number of packets — also followed by a real failure; "
+        "programs whose `end` filter reads PL/WL/TSS/TSU are generated too (outside the specification: judged no-panic only); every case line carries what is needed to re-run it "
+        "(profile, program text, input bytes, fixed expectation), so `./check --replay` works; byte level: stdout without -s is compared byte for byte with FilterOut.filterOutput (Lean, driver op `filterout`) applied to the input "
+        "bytes and the selection read off the output — header, records, order and multiplicity as the model of Props/C20Bytes.lean has them — incl. streams cut inside their last record "
+        "(the complete records are the packets; the reader stops silently); non-trivial = at least one packet selected or printed")
 ASSUMPTIONS = ["packet *field* reads/assignments inside filters are covered by C15-C17; FilterSpec treats packets as their four pcap header numbers",
-               "after a runtime error inside a filter FilterSpec is silent; the failing path is judged on fixed programs against the stream loop of Props/C20.lean (streamLoop/onPacket), mirrored in stream_loop() below",
+               "after a runtime error inside a filter, and for a filter whose result is not a boolean, FilterSpec is silent; both paths are judged on fixed programs against the stream loop of Props/C20.lean (Ans/pstep/onPacket/streamLoop), mirrored in stream_loop() below",
+               "inside `end` only NP is specified; PL, WL, TSS, TSU there are whatever the implementation left (FilterSpec: unc)",
                "each packet's payload carries its index so that output records can be mapped back to input packets"]
 BINARY_PROFILES = ["dev", "release"]
 MAGIC_US, MAGIC_NS = 0xA1B2C3D4, 0xA1B23C4D
@@ -22,6 +29,45 @@ MAGIC_US, MAGIC_NS = 0xA1B2C3D4, 0xA1B23C4D
 
 def hx(s):
     return s.encode("utf-8").hex()
+
+
+# ---- everything needed to run a case is in its line (so that a replay file, which keeps only lines, can be re-run):
+#   filter S=<0|1> P=<profile> SRC=<hex program text> D=<hex input bytes> [X=<hex json: fixed expectation>] K=<ts:us:cap:wire,…> @@ <ast>
+# the Lean driver (FilterDrv.run) reads S=, K= and the ast and ignores the other tokens.
+_INFO = {}
+
+
+def make_line(skip, prof, src, data, k, ast, expect=None):
+    x = f" X={json.dumps(expect, sort_keys=True).encode('utf-8').hex()}" if expect is not None else ""
+    return f"filter S={1 if skip else 0} P={prof} SRC={hx(src)} D={data.hex() or '-'}{x} K={k} @@ {ast}"
+
+
+def records_of(data):
+    """the complete records of an input stream (what `next_packet` delivers), as byte strings"""
+    recs, pos = [], 24
+    while pos + 16 <= len(data):
+        cap = struct.unpack("<I", data[pos + 8 : pos + 12])[0]
+        if pos + 16 + cap > len(data):
+            break
+        recs.append(data[pos : pos + 16 + cap])
+        pos += 16 + cap
+    return recs
+
+
+def info(c):
+    """profile, program, input and fixed expectation of a case, from its line"""
+    i = _INFO.get(c.line)
+    if i is None:
+        head = c.line.split(" @@ ")[0].split(" ")
+        tok = {t.split("=", 1)[0]: t.split("=", 1)[1] for t in head if "=" in t}
+        data = bytes.fromhex(tok.get("D", "").replace("-", ""))
+        i = {"skip": tok.get("S") == "1", "prof": tok.get("P", "dev"), "src": bytes.fromhex(tok.get("SRC", "")).decode("utf-8"),
+             "data": data, "hdr": data[:24], "recs": records_of(data)}
+        if "X" in tok:
+            i.update(json.loads(bytes.fromhex(tok["X"]).decode("utf-8")))
+            i["fail"] = True
+        _INFO[c.line] = i
+    return i
 
 
 def nontrivial(c):
@@ -62,9 +108,27 @@ def program(rng, npk):
             lines.append(f"@ {{ {rng.choice(ACTIONS).format(a=a, b=b)} }}")
         if rng.random() < 0.2:
             lines.append(f"fn helper{len(lines)}(x) {{ x + 1 }}")
-    if rng.random() < 0.6:
+    r = rng.random()
+    if r < 0.08:
+        # `end` reading a packet variable: the statement fixes only NP there (the code leaves the last packet's TSS/TSU and
+        # null in PL/WL) — FilterSpec is silent (unc), the case is judged no-panic only
+        lines.append("@ end { eprintln(\"end {} {} {}\", NP, cnt, %s); }" % rng.choice(["TSS", "TSU", "PL", "WL", "TSS + TSU"]))
+    elif r < 0.6:
         lines.append("@ end { eprintln(\"end {} {} {} {} {}\", NP, cnt, total, big, last); }")
     return "\n".join(lines) + "\n"
+
+
+END_READS_PROGRAMS = [
+    "let cnt = 0;\n@ PL >= 0 { cnt = cnt + 1; }\n@ NP == 2\n@ end { eprintln(\"end {} {} {} {}\", NP, cnt, TSS, TSU); }\n",
+    "@ true\n@ end { eprintln(\"end {} {} {}\", NP, PL, WL); }\n",
+]
+
+
+def truncate(rng, hdr, pkts):
+    """the stream cut inside its last record (1 … len-1 bytes of it are there): that record is not a packet"""
+    *_, last = pkts[-1]
+    body = b"".join(r for *_, r in pkts[:-1])
+    return hdr, pkts[:-1], hdr + body + last[: rng.randint(1, len(last) - 1)]
 
 
 def stream(rng):
@@ -123,18 +187,44 @@ FAILING_PROGRAMS = [
 ]
 
 
+SKIP = "skipRest"
+
+# ---- a filter whose RESULT is not a boolean: `pop_filter_frame` fails, the bare `break` leaves only the per-packet loop.
+# Meaning of a filter: True / False / None (fails: `break 'out`) / SKIP (`Ans.skipRest`); `end` as a function of (NP, packets read).
+NONBOOL_PROGRAMS = [
+    # on packet 2 the second filter yields 7: packet 2 keeps the selection of the first filter, the third does not run on it, the stream goes on
+    ("@ true\n@ if NP == 2 { 7 } else { false }\n@ true\n@ end { eprintln(\"end {}\", NP); }\n",
+     [lambda np, pl: True, lambda np, pl: SKIP if np == 2 else False, lambda np, pl: True], lambda npe, n: f"end {npe}\n"),
+    # every packet: nothing is ever selected, every packet is counted
+    ("@ 5\n@ true\n@ end { eprintln(\"end {}\", NP); }\n",
+     [lambda np, pl: SKIP, lambda np, pl: True], lambda npe, n: f"end {npe}\n"),
+    # every other packet, a string; the state the actions keep shows which filters ran: the last action is skipped on packets 2, 4, 6
+    ("let c = 0;\n@ true { c = c + 1; }\n@ if NP % 2 == 0 { \"s\" } else { true }\n@ NP > 2\n@ true { c = c + 10; }\n@ end { eprintln(\"end {} {}\", NP, c); }\n",
+     [lambda np, pl: False, lambda np, pl: SKIP if np % 2 == 0 else True, lambda np, pl: np > 2, lambda np, pl: False],
+     lambda npe, n: f"end {npe} {n + 10 * ((n + 1) // 2)}\n"),
+    # both kinds in one run: null as a result on packet 2 (the stream goes on), a division by zero in an action on packet 4 (the stream stops)
+    ("@ true\n@ if NP == 2 { null } else { false }\n@ NP == 4 { 1 / 0; }\n@ true\n@ end { eprintln(\"end {}\", NP); }\n",
+     [lambda np, pl: True, lambda np, pl: SKIP if np == 2 else False, lambda np, pl: None if np == 4 else False, lambda np, pl: True],
+     lambda npe, n: f"end {npe}\n"),
+]
+
+
 def stream_loop(filters, pkts):
-    """streamLoop/onPacket of lean/P2sh/Props/C20.lean: (selected numbers in output order, NP for `end`, failed?)"""
-    sel, count = [], 1
+    """streamLoop/onPacket/pstep of lean/P2sh/Props/C20.lean:
+    (selected numbers in output order, NP for `end`, failed?, number of non-boolean results)"""
+    sel, count, skips = [], 1, 0
     for (_, _, cap, _, _) in pkts:
         for f in filters:
             r = f(count, cap)
             if r is None:
-                return sel, count, True      # what was selected so far stays; NP stays at this packet
+                return sel, count, True, skips      # Ans.fail: what was selected so far stays; NP stays at this packet
+            if r == SKIP:
+                skips += 1                           # Ans.skipRest: the rest of this packet's filters do not run …
+                break
             if r:
                 sel.append(count)
-        count += 1
-    return sel, count - 1, False
+        count += 1                                   # … and the stream goes on
+    return sel, count - 1, False, skips
 
 
 def failing_cases(ctx, asts_of):
@@ -142,27 +232,29 @@ def failing_cases(ctx, asts_of):
     items = []
     for src, filters, end in FAILING_PROGRAMS:
         hdr, pkts, data = long_stream(ctx.rng, 6)
-        items.append((src, filters, end, hdr, pkts, data))
+        items.append((src, filters, (lambda npe, n, end=end: end(npe)) if end else None, hdr, pkts, data, "failing-filter"))
+    for src, filters, end in NONBOOL_PROGRAMS:
+        hdr, pkts, data = long_stream(ctx.rng, 6)
+        items.append((src, filters, end, hdr, pkts, data, "nonboolean-result"))
     asts = asts_of([s for s, *_ in items])
-    for src, filters, end, hdr, pkts, data in items:
-        sel, npe, failed = stream_loop(filters, pkts)
+    for src, filters, end, hdr, pkts, data, tag in items:
+        sel, npe, failed, skips = stream_loop(filters, pkts)
         k = ",".join(f"{a}:{b}:{c}:{d}" for a, b, c, d, _ in pkts)
-        line = f"filter S=0 K={k} @@ {asts.get(src, '(perr)')}"
+        expect = {"expect_sel": sel, "expect_rterrs": skips + (1 if failed else 0), "expect_nonbool": skips, "expect_end": end(npe, len(pkts)) if end else None}
         for prof in ("dev", "release"):
-            out.append(Case(line, ("failing-filter", prof), extra={"src": src, "hdr": hdr.hex(), "data": data.hex(), "recs": [r.hex() for *_, r in pkts], "skip": False, "prof": prof,
-                                                                  "fail": True, "expect_sel": sel, "expect_failed": failed, "expect_end": end(npe) if end else None}))
+            out.append(Case(make_line(False, prof, src, data, k, asts.get(src, "(perr)"), expect), (tag, prof), extra={"src": src}))
     return out
 
 
 def spec_override(c):
-    e = c.extra or {}
+    e = info(c)
     if e.get("fail"):
         return "m sel=" + ",".join(map(str, e["expect_sel"])) + " hdr=t out="
     return c.spec
 
 
 def judge(c):
-    e = c.extra or {}
+    e = info(c)
     if not e.get("fail") or not c.impl.startswith("sel="):
         return True
     got = dict(t.split("=", 1) for t in c.impl.split(" ") if "=" in t)
@@ -170,8 +262,8 @@ def judge(c):
         err = bytes.fromhex(got.get("err", "")).decode("utf-8", "replace")
     except ValueError:
         return False
-    if e["expect_failed"] and err.count("Runtime error") != 1:
-        return False
+    if err.count("Runtime error") != e["expect_rterrs"] or err.count("filter expression must evaluate to a boolean") != e["expect_nonbool"]:
+        return False      # one message per non-boolean result (each ends one packet's filters), one for the failure that ends the stream
     end = e["expect_end"]
     if end is None:
         return "end " not in err
@@ -183,12 +275,18 @@ def cases(ctx):
     items = []
     for _ in range(ctx.scale(150, 8000)):
         hdr, pkts, data = stream(rng)
+        cut = bool(pkts) and rng.random() < 0.12
+        if cut:
+            hdr, pkts, data = truncate(rng, hdr, pkts)
         src = program(rng, len(pkts))
         skip = rng.random() < 0.35
-        items.append((src, hdr, pkts, data, skip))
+        items.append((src, hdr, pkts, data, skip, cut))
     for k, src in enumerate(LONG_PROGRAMS):
         hdr, pkts, data = long_stream(rng, 1500)
-        items.append((src, hdr, pkts, data, k % 2 == 0))
+        items.append((src, hdr, pkts, data, k % 2 == 0, False))
+    for k, src in enumerate(END_READS_PROGRAMS):
+        hdr, pkts, data = long_stream(rng, 3)
+        items.append((src, hdr, pkts, data, k % 2 == 1, False))
     asts = {}
     if ctx.harness:
         outs = run_parallel(ctx.harness, ["parse " + hx(s) for s, *_ in items], timeout=60)
@@ -204,16 +302,17 @@ def cases(ctx):
                 res[s] = o[i:] if (o.startswith("ast ") and " errs=0 " in o[:i]) else "(perr)"
         return res
     out = failing_cases(ctx, asts_of)
-    for src, hdr, pkts, data, skip in items:
+    for src, hdr, pkts, data, skip, cut in items:
         k = ",".join(f"{a}:{b}:{c}:{d}" for a, b, c, d, _ in pkts)
-        line = f"filter S={1 if skip else 0} K={k} @@ {asts.get(src, '(perr)')}"
+        reads = any(v in src.split("@ end")[-1] for v in ("TSS", "TSU", "PL", "WL")) if "@ end" in src else False
         for prof in ("dev", "release"):
-            out.append(Case(line, ("skip-pcap" if skip else "pcap-out", prof), extra={"src": src, "hdr": hdr.hex(), "data": data.hex(), "recs": [r.hex() for *_, r in pkts], "skip": skip, "prof": prof}))
+            out.append(Case(make_line(skip, prof, src, data, k, asts.get(src, "(perr)")),
+                            ("skip-pcap" if skip else "pcap-out", prof) + (("truncated-input",) if cut else ()) + (("end-reads-packet-vars",) if reads else ()), extra={"src": src}))
     return out
 
 
-def run_one(ctx, scratch, idx, c):
-    e = c.extra
+def run_one(ctx, scratch, idx, c, raw=None):
+    e = info(c)
     exe = ctx.p2sh.get(e["prof"])
     if not exe:
         return "NOHARNESS"
@@ -221,7 +320,7 @@ def run_one(ctx, scratch, idx, c):
     with open(path, "w", encoding="utf-8") as f:
         f.write(e["src"])
     try:
-        p = subprocess.run([exe] + (["-s"] if e["skip"] else []) + [path], input=bytes.fromhex(e["data"]), stdout=subprocess.PIPE, stderr=subprocess.PIPE, timeout=30)
+        p = subprocess.run([exe] + (["-s"] if e["skip"] else []) + [path], input=e["data"], stdout=subprocess.PIPE, stderr=subprocess.PIPE, timeout=30)
     except subprocess.TimeoutExpired:
         return "HANG"
     err = p.stderr.decode("utf-8", "replace")
@@ -234,9 +333,9 @@ def run_one(ctx, scratch, idx, c):
     out = p.stdout
     if e["skip"]:
         return f"sel= hdr=t out={out.hex()} err={hx(err)}"
-    hdr = bytes.fromhex(e["hdr"])
+    hdr = e["hdr"]
     hdr_ok = out[:24] == hdr
-    recs = [bytes.fromhex(r) for r in e["recs"]]
+    recs = e["recs"]
     sel, pos, bad = [], 24, False
     while pos < len(out):
         if pos + 16 > len(out):
@@ -252,10 +351,35 @@ def run_one(ctx, scratch, idx, c):
         sel.append(cands[0])      # timestamps are unique per packet: exactly one candidate
     if bad:
         return f"sel=garbled hdr={'t' if hdr_ok else 'f'} out= err={hx(err)}"
+    if raw is not None:
+        raw[idx] = (e["data"].hex(), tuple(sel), out)
     return f"sel={','.join(map(str, sel))} hdr={'t' if hdr_ok else 'f'} out= err={hx(err)}"
+
+
+def byte_level(ctx, raw, outs):
+    """stdout of every pcap-writing run against FilterOut.filterOutput (lean/P2sh/Model/FilterOut.lean; theorems in
+    Props/C20Bytes.lean) computed by the driver from the input bytes and the selection read off that stdout: the 24 header
+    bytes, then exactly the selected records, in that order, that often, nothing else.  A difference replaces the
+    selection token (so the case fails its verdict and is classified `filter sel`)."""
+    if not getattr(ctx, "driver", None) or not raw:
+        return outs
+    keys = sorted({(d, s) for d, s, _ in raw.values()})
+    lines = [f"filterout {d} {','.join(map(str, s)) if s else '-'}" for d, s in keys]
+    model = {}
+    for k, o in zip(keys, run_parallel(ctx.driver, lines, timeout=300, label="filterout")):
+        m = o.split(" ## ")[0].strip()
+        model[k] = b"" if m == "-" else (bytes.fromhex(m) if all(ch in "0123456789abcdef" for ch in m) and len(m) % 2 == 0 else None)
+    for idx, (d, s, out) in raw.items():
+        want = model.get((d, s))
+        if want is None or want != out:
+            tag = "no-model" if want is None else "bytes-differ"
+            outs[idx] = f"sel={tag}:" + outs[idx][len("sel="):]
+    return outs
 
 
 def run_impl(ctx, cases):
     scratch = ctx.mkscratch()
+    raw = {}
     with cf.ThreadPoolExecutor(max_workers=16) as ex:
-        return list(ex.map(lambda ic: run_one(ctx, scratch, ic[0], ic[1]), enumerate(cases)))
+        outs = list(ex.map(lambda ic: run_one(ctx, scratch, ic[0], ic[1], raw), enumerate(cases)))
+    return byte_level(ctx, raw, outs)
